@@ -131,14 +131,14 @@ def parts(tier, seed=0):
     e.append((sp, dict(dom_n=1, arg_dom_n=1, multi_len=1, arg_multi_len=1)))
     P.append(("E:odd-names+seed-value", e))
 
+    # T: all ordered triples of short-named structural kinds (three-letter groups, three options around one positional)
+    t = []
+    for ks in itertools.product(SHORTED, repeat=3):
+        t.append((G.mk_spec(G.NAMES0, list(ks), [R]), dict(dom_n=1, arg_dom_n=1, multi_len=1 if q else 2, arg_multi_len=1)))
     if not q:
-        # T: all triples of short-named structural kinds x a second catalogue position without short name
-        t = []
-        for ks in itertools.product(SHORTED, repeat=3):
-            t.append((G.mk_spec(G.NAMES0, list(ks), [R]), dict(dom_n=1, arg_dom_n=1, multi_len=2, arg_multi_len=1)))
         for ks in itertools.product(STRUCT, repeat=3):
             t.append((G.mk_spec(G.NAMES1, list(ks), [R, M]), dict(dom_n=1, arg_dom_n=1, multi_len=1, arg_multi_len=1)))
-        P.append(("T:option-triples", t))
+    P.append(("T:option-triples", t))
     return P
 
 
